@@ -227,6 +227,142 @@ func sendHistoryProbe() string {
 	return fmt.Sprintf("/-- (history, websocket, receiving) ↦ does a real session write the same bytes as without the history -/\ndef sendHistoryProbe : Option (List (String × Bool × Bool × String)) := some [\n  %s]\n\n", strings.Join(rows, ",\n  "))
 }
 
+// sessionOn runs one session of kind k (bit 0: receiving, bit 1: s2s) on the negotiator value neg
+// and returns what it wrote (stream id blanked) followed by the content namespace Session.Out()
+// reports.
+func sessionOn(neg xmpp.Negotiator, ws bool, k int, n int) string {
+	recv, s2s := k&1 != 0, k&2 != 0
+	loc := jid.MustParse(fmt.Sprintf("h%d.example", n))
+	orig := jid.MustParse(fmt.Sprintf("u%d@h%d.example/r'%d", n, n, n))
+	var st xmpp.SessionState
+	xmlns := "jabber:client"
+	if s2s {
+		st |= xmpp.S2S
+		xmlns = "jabber:server"
+	}
+	var conn *nc.Conn
+	var sess *xmpp.Session
+	if p := common.Recover(func() {
+		if recv {
+			conn = nc.NewConn(nc.S(peerHeader(ws, xmlns, "", orig.String(), loc.String())))
+			sess, _ = xmpp.NewSession(context.Background(), loc, orig, conn, st|xmpp.Received, neg)
+		} else {
+			conn = nc.NewConn()
+			sess, _ = xmpp.NewSession(context.Background(), loc, orig, conn, st, neg)
+		}
+	}); p != "" || sess == nil {
+		return "panic"
+	}
+	return string(idAttrRe.ReplaceAll(conn.Written(), []byte(" id='ID'"))) + "|" + sess.Out().XMLNS
+}
+
+// negSharedProbe (round E): ONE Negotiator value serves every sequence of 2 and 3 sessions over the
+// four kinds (role x c2s/s2s), per framing; the LAST session of the sequence is compared with the
+// same session (same addresses) on a negotiator value of its own.  Row: (websocket, kinds of the
+// sequence, "same" | "differs", content namespace the last header declares on TCP / Out() on ws).
+func negSharedProbe() string {
+	var rows []string
+	for _, ws := range []bool{false, true} {
+		var seqs [][]int
+		for a := 0; a < 4; a++ {
+			for b := 0; b < 4; b++ {
+				seqs = append(seqs, []int{a, b})
+				for c := 0; c < 4; c++ {
+					seqs = append(seqs, []int{a, b, c})
+				}
+			}
+		}
+		for _, sq := range seqs {
+			shared := negotiator(ws, "en")
+			last := ""
+			for i, k := range sq {
+				last = sessionOn(shared, ws, k, i)
+			}
+			alone := sessionOn(negotiator(ws, "en"), ws, sq[len(sq)-1], len(sq)-1)
+			res := "differs"
+			if last == alone && alone != "panic" && !strings.HasPrefix(alone, "|") {
+				res = "same"
+			}
+			ns := last[strings.LastIndex(last, "|")+1:]
+			var ks []string
+			for _, k := range sq {
+				ks = append(ks, strconv.Itoa(k))
+			}
+			rows = append(rows, fmt.Sprintf("(%v, [%s], %q, %q)", ws, strings.Join(ks, ", "), res, ns))
+		}
+	}
+	return fmt.Sprintf("/-- (websocket, kinds of the sessions ONE negotiator value served in this order; kind = receiving + 2*s2s) ↦\n(does the last session write what it writes on a negotiator value of its own, content namespace its Out() reports) -/\ndef negSharedProbe : Option (List (Bool × List Nat × String × String)) := some [\n  %s]\n\n", strings.Join(rows, ",\n  "))
+}
+
+// bindOn runs one receiving session that binds on the feature value feat and returns the id and
+// the <jid/> of the reply it wrote.
+func bindOn(feat xmpp.StreamFeature, remote jid.JID, id, res string) (rid, rjid string) {
+	req := fmt.Sprintf("<iq type='set' id='%s'><bind xmlns='%s'><resource>%s</resource></bind></iq>", id, nsBind, res)
+	conn := nc.NewConn(nc.S(nc.Header("jabber:client", "", remote.String(), remote.Domain().String())), nc.S(req))
+	if p := common.Recover(func() {
+		_, _ = xmpp.NewSession(context.Background(), remote.Domain(), remote, conn, xmpp.Received|xmpp.Secure|xmpp.Authn, negotiator(false, "", feat))
+	}); p != "" {
+		return "panic", ""
+	}
+	streams, _ := nc.ParseWritten(conn.Written())
+	if len(streams) > 0 {
+		for _, e := range streams[0].Elems {
+			if e.Name.Local != "iq" {
+				continue
+			}
+			rid, _ = e.AttrVal("id")
+			if bd, ok := e.Child("bind"); ok {
+				if je, ok := bd.Child("jid"); ok {
+					rjid = je.Text
+				}
+			}
+		}
+	}
+	return rid, rjid
+}
+
+// bindSharedProbe (round E, review B C12-3: behaviour instead of closure syntax): k = 2..4 receiving
+// sessions with their own remote address, request id and requested resource bind one after the
+// other on ONE feature value — BindResource() ("default") and BindCustom(echo) ("custom").  Row:
+// (kind, k, every reply carries its own request id, every assigned address is the session's own bare
+// address (custom: with the resource IT asked for), the assigned resources are non-empty and
+// pairwise distinct ("default") / exactly the requested ones ("custom")).
+func bindSharedProbe() string {
+	var rows []string
+	for _, kind := range []string{"default", "custom"} {
+		for k := 2; k <= 4; k++ {
+			feat := xmpp.BindResource()
+			if kind == "custom" {
+				feat = xmpp.BindCustom(func(j jid.JID, res string) (jid.JID, error) { return j.WithResource(res) })
+			}
+			idsOwn, addrOwn, resOK := true, true, true
+			seen := map[string]bool{}
+			for i := 0; i < k; i++ {
+				remote := jid.MustParse(fmt.Sprintf("u%d@h%d.example", i, i))
+				id, want := fmt.Sprintf("req%d", i), fmt.Sprintf("res%d", i)
+				rid, rj := bindOn(feat, remote, id, want)
+				if rid != id {
+					idsOwn = false
+				}
+				pre := remote.String() + "/"
+				if !strings.HasPrefix(rj, pre) {
+					addrOwn = false
+					continue
+				}
+				got := rj[len(pre):]
+				if kind == "custom" {
+					resOK = resOK && got == want
+				} else {
+					resOK = resOK && got != "" && !seen[got]
+				}
+				seen[got] = true
+			}
+			rows = append(rows, fmt.Sprintf("(%q, %d, %v, %v, %v)", kind, k, idsOwn, addrOwn, resOK))
+		}
+	}
+	return fmt.Sprintf("/-- (feature kind, sessions on ONE feature value) ↦ (replies carry their own id, their own address, fresh / requested resources) -/\ndef bindSharedProbe : Option (List (String × Nat × Bool × Bool × Bool)) := some [\n  %s]\n\n", strings.Join(rows, ",\n  "))
+}
+
 // Facts regenerates lean/XmppModel/Generated/C12.lean:
 //
 //   - sendRawAttrs: the attributes internal/stream.Send prints with a bare %s inside quotes
@@ -340,6 +476,8 @@ func Facts(repo string) (string, error) {
 	// ---- 5. round D: the address comparison on all pairs, the header after every history ----
 	sb.WriteString(jidEqualProbe())
 	sb.WriteString(sendHistoryProbe())
+	sb.WriteString(negSharedProbe())
+	sb.WriteString(bindSharedProbe())
 	sb.WriteString("end XmppModel.Generated.C12\n")
 	return sb.String(), nil
 }
